@@ -310,7 +310,7 @@ def translate_repo(repo):
                 out.append('Definition gen_%s%s := %s.' % (full, args, body))
                 summary.append({'def': 'gen_' + full, 'file': rel, 'function': f.name, 'line': line, 'source': text, 'gallina': body})
             out.append('')
-    for fn in (translate_build_profile, translate_growth_call):
+    for fn in (translate_build_profile, translate_growth_call, translate_phase_closures):
         text, summ = fn(repo)
         out.append(text)
         summary += summ
@@ -487,6 +487,65 @@ def translate_growth_call(repo):
             '  %s.' % body, '']
     return '\n'.join(text), [{'def': 'gen_singleGrowthMulti_call', 'file': rel, 'function': '_singleGrowthMulti', 'line': c.lineno,
                                'source': ast.unparse(c), 'gallina': body}]
+
+
+# ------------------------------------------------------------------------------------------------
+# callbacks created in loops over the phases: is the phase index bound when the closure is made or when it is called?
+PHASE_LOOP_FILES = ['kawin/precipitation/KWNBase.py', 'kawin/precipitation/KWNEuler.py']
+PHASE_LISTS = ('phases', 'precipitateParameters', 'PBM')
+
+
+def _phase_loop_var(st):
+    """loop variable of `for p in range(len(self.<phases|precipitateParameters|PBM>))`, else None"""
+    if not (isinstance(st, ast.For) and isinstance(st.target, ast.Name) and isinstance(st.iter, ast.Call)
+            and isinstance(st.iter.func, ast.Name) and st.iter.func.id == 'range' and len(st.iter.args) == 1):
+        return None
+    a = st.iter.args[0]
+    if (isinstance(a, ast.Call) and isinstance(a.func, ast.Name) and a.func.id == 'len' and len(a.args) == 1
+            and any(_is_self_attr(a.args[0], nm) for nm in PHASE_LISTS)):
+        return st.target.id
+    return None
+
+
+def translate_phase_closures(repo):
+    out, summary = [], []
+    for rel in PHASE_LOOP_FILES:
+        tree = ast.parse(open(os.path.join(repo, rel)).read())
+        for f in [n for n in ast.walk(tree) if isinstance(n, ast.FunctionDef)]:
+            k = 0
+            for loop in [n for n in ast.walk(f) if _phase_loop_var(n) is not None]:
+                v = _phase_loop_var(loop)
+                for cl in [n for st in loop.body for n in ast.walk(st) if isinstance(n, (ast.Lambda, ast.FunctionDef))]:
+                    args = cl.args
+                    if args.vararg or args.kwarg or args.kwonlyargs:
+                        raise TranslateError('%s.%s: closure with *args / keyword-only arguments in a phase loop (line %d)' % (rel, f.name, cl.lineno))
+                    names = [a.arg for a in args.posonlyargs + args.args]
+                    defaults = dict(zip(names[len(names) - len(args.defaults):], args.defaults))
+                    early = set(a for a, dflt in defaults.items() if isinstance(dflt, ast.Name) and dflt.id == v)
+                    for a, dflt in defaults.items():
+                        if a not in early and any(isinstance(n, ast.Name) and n.id == v for n in ast.walk(dflt)):
+                            raise TranslateError('%s.%s: default argument %s computed from the phase index (line %d)' % (rel, f.name, a, cl.lineno))
+                    body = [cl.body] if isinstance(cl, ast.Lambda) else cl.body
+                    uses = []
+                    for b in body:
+                        for n in ast.walk(b):
+                            if isinstance(n, (ast.Lambda, ast.FunctionDef)) and n is not cl:
+                                raise TranslateError('%s.%s: nested closure in a phase loop (line %d)' % (rel, f.name, cl.lineno))
+                            if isinstance(n, ast.Name) and isinstance(n.ctx, ast.Load):
+                                if n.id in early:
+                                    uses.append('Early')
+                                elif n.id == v and v not in names:
+                                    uses.append('Late')
+                    if not uses:
+                        continue
+                    k += 1
+                    name = 'gen_%s_closure_%d' % (f.name.lstrip('_'), k)
+                    src = ast.unparse(cl).split('\n')[0]
+                    out += ['(* %s : %s (line %d): %s *)' % (rel, f.name, cl.lineno, src.replace('*)', '* )')),
+                            'Definition %s {P T : Type} (table : P -> T) (ps : list P) (d : P) (%s : nat) : list T :=' % (name, v),
+                            '  [%s].' % '; '.join('callback table %s ps d %s' % (u, v) for u in uses), '']
+                    summary.append({'def': name, 'file': rel, 'function': f.name, 'line': cl.lineno, 'source': src, 'gallina': ', '.join(uses)})
+    return '\n'.join(out), summary
 
 
 if __name__ == '__main__':
